@@ -22,7 +22,9 @@ var rules = map[string]ruleFn{
 	"C04": ruleC04,
 	"C07": ruleC07,
 	"C09": ruleC09,
+	"C11": ruleC11,
 	"C12": ruleC12,
+	"C19": ruleC19,
 	"C10": ruleC10,
 	"C05": ruleC05,
 	"C06": ruleC06,
